@@ -104,7 +104,7 @@ func monC08(c *drv.Ctx) {
 	allTypes := []byte{0, 1, 2, 3, 4, 5, 6, 7, 8, 9, 10, 11, 12, 13, 14, 15, 16, 17, 0x7f, 0x80, 0xff}
 
 	// (1) bounded-exhaustive strings over the grammar alphabet
-	maxLen := int(c.Pick(4, 6))
+	maxLen := int(c.Pick(5, 6))
 	for n := 0; n <= maxLen; n++ {
 		n := n
 		total := gen.Pow(int64(len(gen.GrammarAlphabet)), n)
@@ -125,7 +125,7 @@ func monC08(c *drv.Ctx) {
 	}
 
 	// (2) mutated valid encodings
-	c.Stage("mutants", c.Pick(40000, 4000000), false, func(cs *drv.Case) {
+	c.Stage("mutants", c.Pick(300000, 6000000), false, func(cs *drv.Case) {
 		r := cs.R
 		t := types[r.Intn(len(types))]
 		o := gen.TreeOpts{MaxDepth: 1 + r.Intn(4), MaxElems: 4}
